@@ -454,15 +454,34 @@ func execHsM(a []string) (string, string) {
 	metricsMu.Lock()
 	defer metricsMu.Unlock()
 	before := gather()
+	// an established session is closed again (the reply to Close Session is lost — the script is exhausted —, which is
+	// the documented case "we regard sessions that failed to close cleanly as closed")
+	closed := "-"
+	var mid snapshot
+	hsAfter = func(run *hsRun) {
+		mid = gather()
+		if run.sess != nil {
+			ctx, cancel := context.WithTimeout(context.Background(), 300*time.Millisecond)
+			defer cancel()
+			closed = "ok"
+			if err := run.sess.Close(ctx); err != nil {
+				closed = "err"
+			}
+		}
+	}
 	out, verdict := execHs(a)
+	hsAfter = nil
 	after := gather()
-	d := func(key string) int { return int(after[key] - before[key]) }
+	if mid == nil {
+		mid = after
+	}
+	d := func(key string) int { return int(mid[key] - before[key]) }
 	res := "err"
 	if i := strings.Index(out, " res="); i >= 0 && strings.HasPrefix(out[i+5:], "ok") {
 		res = "ok"
 	}
 	other := 0
-	for k := range after {
+	for k := range mid {
 		switch k {
 		case "bmc_session_open_attempts_total", "bmc_session_open_failures_total", "bmc_sessions_open":
 		default:
@@ -478,13 +497,19 @@ func execHsM(a []string) (string, string) {
 			}
 		}
 	}
-	o := fmt.Sprintf("res=%s attempts=%d failures=%d open=%d other=%d", res, d("bmc_session_open_attempts_total"),
-		d("bmc_session_open_failures_total"), d("bmc_sessions_open"), other)
+	// the Close that followed: one attempt of "Close Session", the gauge back where it was
+	d2 := func(key string) int { return int(after[key] - mid[key]) }
+	closeAtt, gaugeEnd := d2("bmc_command_attempts_total|command=Close Session"), int(after["bmc_sessions_open"]-before["bmc_sessions_open"])
+	o := fmt.Sprintf("res=%s attempts=%d failures=%d open=%d other=%d closed=%s close_attempts=%d open_after=%d", res, d("bmc_session_open_attempts_total"),
+		d("bmc_session_open_failures_total"), d("bmc_sessions_open"), other, closed, closeAtt, gaugeEnd)
 	if verdict == "" {
 		want := map[string][3]int{"ok": {1, 0, 1}, "err": {1, 1, 0}}[res]
 		if got := [3]int{d("bmc_session_open_attempts_total"), d("bmc_session_open_failures_total"), d("bmc_sessions_open")}; got != want {
 			verdict = fmt.Sprintf("establishment ended %q: attempts/failures/open-gauge moved by %v, want %v", res, got, want)
 		}
+	}
+	if verdict == "" && res == "ok" && (gaugeEnd != 0 || closeAtt != 1) {
+		verdict = fmt.Sprintf("an established session was closed: the open-sessions gauge ends %+d from where it started, Close Session attempts %d (want 0 and 1)", gaugeEnd, closeAtt)
 	}
 	return o, verdict
 }
